@@ -359,6 +359,9 @@ func (fr *Frame) evalBinop(e *CExpr, ctx *evalCtx) *Val {
 		if a.sort != sInt || b.sort != sInt {
 			efail("arithmetic on non-integers in %s", e)
 		}
+		if op == "*" && !isLiteral(a.t) && !isLiteral(b.t) {
+			return &Val{t: app("MUL", a.t, b.t), sort: sInt, typ: arithType(a, b)}
+		}
 		return &Val{t: app(op, a.t, b.t), sort: sInt, typ: arithType(a, b)}
 	case "/":
 		return &Val{t: app("div", a.t, b.t), sort: sInt, typ: arithType(a, b)}
@@ -367,6 +370,18 @@ func (fr *Frame) evalBinop(e *CExpr, ctx *evalCtx) *Val {
 	}
 	efail("unknown operator %s", op)
 	return nil
+}
+
+func isLiteral(t string) bool {
+	if t == "" {
+		return false
+	}
+	for _, c := range t {
+		if c < '0' || c > '9' {
+			return strings.HasPrefix(t, "(- ") && isLiteral(strings.TrimSuffix(t[3:], ")"))
+		}
+	}
+	return true
 }
 
 func arithType(a, b *Val) types.Type {
@@ -561,6 +576,14 @@ func (fr *Frame) evalCall(e *CExpr, ctx *evalCtx) *Val {
 	case "held":
 		x := fr.eval1(args[0], ctx)
 		return boolVal(fr.eng.heldTerm(fr, x))
+	case "bits": // bits(x, lo, hi) = (x div 2^lo) mod 2^(hi-lo)
+		x := fr.eval1(args[0], ctx)
+		lo, ok1 := parseIntLit(args[1].Name)
+		hi, ok2 := parseIntLit(args[2].Name)
+		if !ok1 || !ok2 || args[1].Kind != "int" || args[2].Kind != "int" {
+			efail("bits(x, lo, hi) needs literal bounds")
+		}
+		return &Val{t: fr.eng.bitsTerm(x.t, int(lo.Int64()), int(hi.Int64())), sort: sInt, typ: tInt}
 	case "MUL":
 		a := fr.eval1(args[0], ctx)
 		b := fr.eval1(args[1], ctx)
@@ -684,9 +707,13 @@ func (fr *Frame) applySpec(sf *SpecFn, args []*Val, ctx *evalCtx) *Val {
 	for _, a := range args {
 		parts = append(parts, fr.scalar(a))
 	}
-	t := sf.Name
+	fname := sf.Name
+	if fr.eng.recLimited[sf.Name] {
+		fname += "$L"
+	}
+	t := fname
 	if len(parts) > 0 {
-		t = app(sf.Name, parts...)
+		t = app(fname, parts...)
 	}
 	return &Val{t: t, sort: si.rsort, typ: si.rtype}
 }
